@@ -1285,6 +1285,10 @@ def f_tensor(I, v, dtype=None, device=None, **k):
     val = v
     if tag == "float" and is_z3(v) and z3.is_int(v):
         val = z3.ToReal(v)
+    if tag == "long" and is_z3(v) and z3.is_real(v):
+        val = as_int_term(v)
+        if val is None:
+            val = z3.If(v >= 0, z3.ToInt(v), -z3.ToInt(-v))  # conversion to an integer type truncates toward zero
     return ST((), lambda: val, tag)
 
 
@@ -1465,8 +1469,24 @@ def _log_softmax(I, t, dim=-1, **k):
 @meth("all")
 def _all(I, t, dim=None, keepdim=False):
     """all along a dimension of small concrete extent (written out); other forms are not modelled"""
+    if dim is None and not keepdim:
+        # all over every element: a fresh Boolean with the assumed contract `true iff every element is` - the universal half
+        # quantified (instance builder `elim`), the other half with a witness position (ghost['alls'])
+        te0 = t.elem
+        dims0 = [to_z3(d_) for d_ in t.shape]
+        b0 = I.ex.fresh("bool", "all")
+        ws0 = [I.ex.fresh("int", "all_counterexample") for _ in dims0]
+        inr0 = lambda idx: z3.And([z3.And(to_z3(i) >= 0, to_z3(i) < d_) for i, d_ in zip(idx, dims0)] or [z3.BoolVal(True)])
+        tv = lambda idx: (lambda e_: z3.BoolVal(e_) if isinstance(e_, bool) else (e_ if z3.is_bool(e_) else to_z3(e_) != 0))(te0(*idx))
+        elim = lambda *idx: z3.Implies(z3.And(b0, inr0(idx)), tv(idx))
+        iv0 = [z3.Int("i%d_all" % j) for j in range(len(dims0))]
+        I.ex.assume(z3.ForAll(iv0, elim(*iv0)) if iv0 else elim())
+        cex = z3.Implies(z3.Not(b0), z3.And(inr0(ws0), z3.Not(tv(ws0))))
+        I.ex.assume(cex)
+        I.ex.ghost.setdefault("alls", []).append({"B": b0, "elim": elim, "cex": cex, "witness": ws0})
+        return b0
     if dim is None or keepdim:
-        raise Unsupported("all() without a dimension on a symbolic-shape tensor")
+        raise Unsupported("all() with keepdim and no dimension on a symbolic-shape tensor")
     d = dim % len(t.shape)
     if not (isinstance(t.shape[d], int) and 0 <= t.shape[d] <= 8):
         raise Unsupported("all() along a dimension of symbolic extent")
